@@ -134,6 +134,29 @@ def build(kind, conf):
                              force_coords=None if fc is None else (np.array(fc[0]), np.array(fc[1])))
 
 
+def independent_jacobian(kind, conf, coords, force_coords):
+    """the design matrix assembled WITHOUT verde (numpy only): monomials in the documented column order, the biharmonic
+    Green's function r^2 (log r - 1) (0 at r = 0), the 2-D elastic Green's functions of Sandwell & Wessel (2016)"""
+    e, n = np.ravel(coords[0]).astype(float), np.ravel(coords[1]).astype(float)
+    if kind == "trend":
+        deg = conf["degree"]
+        combos = [(t - j, j) for t in range(deg + 1) for j in range(t + 1)]
+        return np.column_stack([e ** i * n ** j for i, j in combos])
+    fe, fn = np.ravel(force_coords[0]).astype(float), np.ravel(force_coords[1]).astype(float)
+    de, dn = e[:, None] - fe[None, :], n[:, None] - fn[None, :]
+    r = np.sqrt(de ** 2 + dn ** 2) + (0.0 if conf.get("mindist") is None else conf["mindist"])
+    if kind == "spline":
+        with np.errstate(divide="ignore", invalid="ignore"):
+            return np.where(r > 0, r * r * (np.log(np.where(r > 0, r, 1.0)) - 1.0), 0.0)
+    nu = conf["poisson"]
+    ln_r = (3 - nu) * np.log(r)
+    over_r2 = (1 + nu) / r ** 2
+    ee, gnn, ne = ln_r + over_r2 * dn ** 2, ln_r + over_r2 * de ** 2, -over_r2 * de * dn
+    return np.block([[ee, ne], [ne, gnn]])
+
+
+_EXTRA = []
+LAST_FORCES = [None]
 FORCES_OK = [True]    # side channel of the last fit(): forces of a Spline without force_coords sit at the CURRENT data points
 
 
@@ -148,6 +171,7 @@ def fit(kind, conf, coords, data, weights, prefit=None):
             est.fit(*prefit)
         est.fit(coords, data, weights)
         FORCES_OK[0] = True
+        LAST_FORCES[0] = None if kind == "trend" else (est.force_coords_ if kind == "spline" else est.force_coords)
         if kind == "spline" and conf.get("force_coords") is None:
             FORCES_OK[0] = all(np.array_equal(np.ravel(a), np.ravel(b)) for a, b in zip(est.force_coords_, coords[:2]))
         if kind == "trend":
@@ -217,10 +241,27 @@ def fit_case(kind, conf, coords, data, weights, stream, prefit=None):
         return Case(inp, out, "Vskip", repro, stream + "/skip-nearconstant-column", nontrivial=False)
     if not (np.all(np.isfinite(A)) and np.all(np.isfinite(p)) and np.all(np.isfinite(pred))):
         return Case(inp, out, "Vviol", repro, stream + "/non-finite", nontrivial=True)
+    _EXTRA.append(jacobian_case(kind, conf, coords, A, LAST_FORCES[0], inp, repro, stream))
     wv = np.ones(A.shape[0]) if w is None else w
     term = "c02_fit %s %s %s %s %s %s (Some %s)" % (
         cN(A.shape[1]), dmat(A), dl(d), dl(wv), dl(p), cD(0.0 if damping is None else damping), dl(pred))
     return Case(inp, out, term, repro, stream, nontrivial=True)
+
+
+def jacobian_case(kind, conf, coords, A, forces, inp, repro, stream):
+    """the implementation's Jacobian against the independently assembled one: every entry within 2^-40 of the largest
+    (for big matrices an evenly spaced subset of at most ~1500 entries' worth of rows)"""
+    ref = independent_jacobian(kind, conf, coords, forces)
+    if ref.shape != A.shape:
+        return Case(inp, {"jacobian_shape": list(A.shape), "expected": list(ref.shape)}, "Vviol", repro, "jacobian-vs-independent/" + kind)
+    rows = np.unique(np.linspace(0, A.shape[0] - 1, max(1, min(A.shape[0], 1500 // A.shape[1]))).astype(int))
+    diff = (A[rows] - ref[rows]).ravel()
+    scale = float(np.max(np.abs(ref))) if ref.size else 0.0
+    out = {"max_abs_difference": float(np.max(np.abs(diff))), "max_abs_entry": scale, "rows_compared": int(rows.size)}
+    if not (np.all(np.isfinite(diff)) and np.isfinite(scale)):
+        return Case(inp, out, "Vviol", repro, "jacobian-vs-independent/" + kind)
+    term = "c01_exact %s %s %s %s %s" % (cD(1.0), cD(4096.0), cD(scale), clist(["(0,0)%Z"] * diff.size), dl(diff))
+    return Case(inp, out, term, repro, "jacobian-vs-independent/" + kind, nontrivial=True)
 
 
 def meta_case(kind, conf, coords, data, weights_fit, A, d, w, stream, note):
@@ -293,6 +334,63 @@ def gen_spline(rnd, i):
     w = make_weights(rnd, n)
     arrs = shape2d(rnd, [e, nn, data] + ([w] if w is not None else []))
     return "spline", conf, (arrs[0], arrs[1]), arrs[2], (arrs[3] if w is not None else None)
+
+
+UNIT_POOL = [(0.0, 0.0), (1.0, 0.0), (0.0, 1.0), (1.0, 1.0), (0.6, 0.8), (0.8, 0.6), (0.28, 0.96), (-0.6, 0.8), (0.6, -0.8),
+             (2.0, 0.0), (2.0, 1.0), (1.0, 2.0), (-1.0, 0.0), (0.0, -1.0), (1.6, 0.8), (0.5, 0.25), (1.3, 1.7), (-0.4, 1.4)]
+
+
+def gen_spline_unit(rnd, i):
+    """stations with pairs EXACTLY 1.0 apart (where the Green's function switches between its two formulas): a
+    unit-spacing integer lattice, 3-4-5 triangles scaled by 1/5, lattices of spacing 0.5 / 0.75 with mindist 0.5 / 0.25
+    (distance + mindist == 1); forces at the data, reordered, or on a coarser subset; every damping / weights variant"""
+    layout = ["unit-lattice", "triangles-3-4-5", "half-lattice+mindist", "unit-lattice-offset", "three-quarter-lattice+mindist"][i % 5]
+    mind = None
+    if layout == "triangles-3-4-5":
+        pts = list(UNIT_POOL)
+        rnd.shuffle(pts)
+        pts = sorted(set(pts[:rnd.randint(7, len(pts))] + [(0.0, 0.0), (0.6, 0.8), (1.0, 0.0)]))
+        rnd.shuffle(pts)
+    else:
+        sp = {"unit-lattice": 1.0, "unit-lattice-offset": 1.0, "half-lattice+mindist": 0.5, "three-quarter-lattice+mindist": 0.75}[layout]
+        mind = {0.5: 0.5, 0.75: 0.25}.get(sp)
+        if sp == 1.0:
+            mind = [None, 0.0, None][(i // 5) % 3]
+        kx, ky = rnd.randint(2, 5), rnd.randint(2, 5)
+        off = (float(rnd.randint(-1000, 1000)), float(rnd.randint(-1000, 1000))) if layout == "unit-lattice-offset" else (0.0, 0.0)
+        pts = [(off[0] + sp * a, off[1] + sp * b) for a in range(kx) for b in range(ky)]
+        rnd.shuffle(pts)
+        pts = pts[:max(4, len(pts) - rnd.randint(0, 3))]
+    e = np.array([q[0] for q in pts])
+    nn = np.array([q[1] for q in pts])
+    n = e.size
+    damping = [None, 10.0 ** rnd.uniform(-8, 2), 10.0 ** rnd.uniform(-3, 0), 1e-8, None, 1e2][(i // 5) % 6]
+    conf = {"damping": damping, "mindist": mind, "layout": layout}
+    fmode = ["at-data", "coarser", "reordered"][(i // 2) % 3]
+    if fmode == "coarser" and n >= 5:
+        keep = list(range(0, n, 2))
+        conf["force_coords"] = [e[keep].tolist(), nn[keep].tolist()]
+    elif fmode == "reordered":
+        idx = list(range(n))[::-1]
+        conf["force_coords"] = [e[idx].tolist(), nn[idx].tolist()]
+        conf["force_mode"] = "data-points-reordered"
+    data = np.array([rnd.gauss(0, 1) for _ in range(n)]) * 10.0 ** rnd.uniform(-2, 3)
+    w = [None, np.array([rnd.uniform(0.1, 3.0) for _ in range(n)]), np.array([10.0 ** rnd.uniform(-3, 3) for _ in range(n)])][(i // 3) % 3]
+    arrs = shape2d(rnd, [e, nn, data] + ([w] if w is not None else []))
+    return "spline", conf, (arrs[0], arrs[1]), arrs[2], (arrs[3] if w is not None else None)
+
+
+MAGNITUDES = [1e-12, 1e-9, 1e-6, 1e6, 1e12]
+
+
+def rescale_data(args, i):
+    """every third case: the data are multiplied by 1e-12 .. 1e12 (SI-unit magnitudes; every comparison is relative)"""
+    kind, conf, coords, data, w = args
+    if i % 3 != 1:
+        return args
+    f = MAGNITUDES[(i // 3) % len(MAGNITUDES)]
+    data = tuple(f * c for c in data) if isinstance(data, tuple) else f * data
+    return kind, conf, coords, data, w
 
 
 def gen_vector(rnd, i):
@@ -478,6 +576,7 @@ def gen_force_count(rnd, kind, k, at_data, i):
 def generate(tier, seed):
     rnd = random.Random(seed)
     cases = []
+    del _EXTRA[:]
     nfit = {"quick": (30, 36, 30), "thorough": (300, 360, 300)}[tier]
     nmeta = {"quick": (12, 12), "thorough": (120, 120)}[tier]
     def other(gen, i):
@@ -485,18 +584,24 @@ def generate(tier, seed):
         return gen(rnd, i + 1)[2:] if i % 2 else None
 
     for i in range(nfit[0]):
-        cases.append(fit_case(*gen_trend(rnd, i), stream="trend", prefit=other(gen_trend, i)))
+        cases.append(fit_case(*rescale_data(gen_trend(rnd, i), i), stream="trend", prefit=other(gen_trend, i)))
     for i in range(nfit[0] // 4):
-        cases.append(fit_case(*gen_trend_offset(rnd, i), stream="trend-offset"))
+        cases.append(fit_case(*rescale_data(gen_trend_offset(rnd, i), i), stream="trend-offset"))
+    for i in range(20 if tier == "quick" else 180):
+        k, conf, coords, data, w = rescale_data(gen_spline_unit(rnd, i), i)
+        cases.append(fit_case(k, conf, coords, data, w,
+                              stream="unit-distance/spline-%s-%s" % ("damped" if conf["damping"] is not None else "undamped",
+                                                                     "forces-reordered-data" if conf.get("force_mode") else
+                                                                     "forces-coarser" if "force_coords" in conf else "forces-at-data")))
     for i in range(nfit[1]):
-        k, conf, coords, data, w = gen_spline(rnd, i)
+        k, conf, coords, data, w = rescale_data(gen_spline(rnd, i), i)
         cases.append(fit_case(k, conf, coords, data, w,
                               stream="spline-%s-%s" % ("damped" if conf["damping"] is not None else "undamped",
                                                        "forces-reordered-data" if conf.get("force_mode") else
                                                        "forces-separate" if "force_coords" in conf else "forces-at-data"),
                               prefit=other(gen_spline, (i // 2) % 2 + 2 * (i // 4))))
     for i in range(nfit[2]):
-        k, conf, coords, data, w = gen_vector(rnd, i)
+        k, conf, coords, data, w = rescale_data(gen_vector(rnd, i), i)
         # VectorSpline2D documents that it keeps the force locations of its first fit: refit only with explicit forces
         cases.append(fit_case(k, conf, coords, data, w,
                               stream="vector-%s-%s%s" % ("damped" if conf["damping"] is not None else "undamped",
@@ -509,17 +614,19 @@ def generate(tier, seed):
     for i in range(nmeta[1]):
         cases.append(gen_weight_to_zero(rnd, i))
     for i in range(10 if tier == "quick" else 80):
-        cases.append(fit_case(*gen_duplicates(rnd, i, "spline"), stream="duplicate-locations/spline-damped"))
+        cases.append(fit_case(*rescale_data(gen_duplicates(rnd, i, "spline"), i), stream="duplicate-locations/spline-damped"))
     for i in range(6 if tier == "quick" else 48):
-        cases.append(fit_case(*gen_duplicates(rnd, i, "vector"), stream="duplicate-locations/vector-damped"))
+        cases.append(fit_case(*rescale_data(gen_duplicates(rnd, i, "vector"), i), stream="duplicate-locations/vector-damped"))
     for j, k in enumerate(FORCE_COUNTS_QUICK if tier == "quick" else FORCE_COUNTS_THOROUGH):
         for kind in ("spline", "vector"):
             for at_data in (True, False):
-                cases.append(fit_case(*gen_force_count(rnd, kind, k, at_data, j),
+                cases.append(fit_case(*rescale_data(gen_force_count(rnd, kind, k, at_data, j), j + (kind == "vector") + 2 * at_data),
                                       stream="force-count/%s-%s" % (kind, "at-data" if at_data else "separate")))
     frnd = random.Random(180218)     # the finding cases do not depend on the run's seed
     for i in range(4):
         cases.append(gen_damped_weight_to_zero(frnd, i))
+    cases.extend(_EXTRA)       # the Jacobian-versus-independent-assembly comparisons queued by fit_case
+    del _EXTRA[:]
     return cases
 
 
